@@ -804,10 +804,15 @@ func (df *DataFrame) Describe() (*DataFrame, error) {
 		sum := 0.0
 		min, max := nums[0], nums[0]
 
+		// NaN cells are skipped by min and max, as Series.Min and Series.Max do
 		for _, v := range nums {
 			sum += v
-			min = math.Min(min, v)
-			max = math.Max(max, v)
+			if v < min || math.IsNaN(min) {
+				min = v
+			}
+			if v > max || math.IsNaN(max) {
+				max = v
+			}
 		}
 
 
